@@ -72,6 +72,8 @@ fn profile(prop: Prop) -> Profile {
                 (QueryVersion, 5),
                 (QueryInfo, 3),
                 (SubscribeEvent, 2),
+                (SubscribeService, 2),
+                (SubscribeAll, 1),
                 (Call, 3),
                 (Reply, 2),
                 (Sync, 1),
